@@ -217,13 +217,14 @@ def runOutJson (names : List String) (r : List Item × Option String) : List (St
 
 /-- the flags and values of the specification side for a `select`-like request -/
 def semFields (names : List String) (spec : Spec) (roe : Bool) (top : String) (vals : List Item) : List (String × Json) :=
+  let r := if top == "filter" then true else roe
   let semTop : Item → Res := fun v => if top == "filter" then sem names true spec v else absorb roe (sem names roe spec v)
   let fold : Option (Item → Res) := match spec with
-    | .list l => some (fun v => absorb roe (orRes (l.map (fun s => sem names roe s v))))
-    | .tuple l => some (fun v => absorb roe (andRes (l.map (fun s => sem names roe s v))))
+    | .list l => some (fun v => absorb r (orRes (l.map (fun s => sem names r s v))))
+    | .tuple l => some (fun v => absorb r (andRes (l.map (fun s => sem names r s v))))
     | _ => none
   [("sem", ofList (fun v => resJson (semTop v)) vals),
-   ("semFold", ofOpt (fun f => ofList (fun v => resJson (absorb roe (f v))) vals) fold),
+   ("semFold", ofOpt (fun f => ofList (fun v => resJson (f v)) vals) fold),
    ("semB", ofList (fun v => Json.bool (semB names spec v)) vals),
    ("hasBad", Json.bool spec.hasBad), ("allRoeF", Json.bool (spec.allRoe false)), ("keysOk", Json.bool spec.keysOk),
    ("totalOn", ofList (fun v => Json.bool (spec.totalOn names v)) vals)]
@@ -251,9 +252,10 @@ def handle (j : Json) : Json :=
       match g, (arr? (getD j "values")).bind (·.toList.mapM (itemOf [])) with
       | some none, _ => Json.mkObj [("init", "LenaTypeError")]
       | some (some g), some vals =>
+        let viaUpdate := (str? (getD j "via")) == some "update"
         -- `fill` value by value; an exception leaves the groups unchanged
         let (gs, errs) := vals.zipIdx.foldl (fun (acc : OldGroups × List Json) (vi : Item × Nat) =>
-          match oldFill g acc.1 vi.1 with
+          match (if viaUpdate then oldUpdate g acc.1 vi.1 else oldFill g acc.1 vi.1) with
           | .ok gs' => (gs', acc.2)
           | .error e => (acc.1, acc.2 ++ [Json.mkObj [("at", ofNat vi.2), ("e", Json.str e)]])) ([], [])
         -- specification side: the reference partition of the values whose key exists
@@ -263,6 +265,7 @@ def handle (j : Json) : Json :=
         Json.mkObj [("groups", ofList (fun kv => ofList (fun v => dataJson v.data) kv.2) gs),
                     ("keys", ofList (fun kv => ofList leafJson kv.1) gs), ("errors", Json.arr errs.toArray),
                     ("specEqModel", Json.bool (decide (groupsOfG key okVals = gs))),
+                    ("after", ofNat (if (str? (getD j "end")) == some "clear" then oldClear gs else oldReset gs).length),
                     ("all", match all with
                       | .ok gs' => Json.mkObj [("ok", Json.bool (decide (gs' = gs)))]
                       | .error e => Json.mkObj [("e", Json.str e)])]
